@@ -19,6 +19,7 @@ EXPLANATION = (
     "(sibling agreement).  R06.4: the call-site loop analyses every resource, or skips one only on a test of every "
     "finder name.  R06.5: introduce-parameter (which rewrites no call site) only appends to the parameter list.  R06.6: the reorderer's new parameter list takes its length from the old list (a permutation), not from new_order.  R06.7 (=R14.9): the simplified text on which calls are recognised keeps every f-string prefix's text.  The positional/keyword mapping arithmetic and the changer "
     "pipeline are not decided."
+    ' R06.9 (=R14.14): text handed back by the word finder is cut from the raw source, never from the blanked search text.'
 )
 ASSUMPTIONS = ["alignment rule of the language reference as recorded in sa/grammar.py DEFAULT_ALIGNMENT",
                "a node of the analysed program = anything derived from self.ast / ast.parse(...) inside the parser classes"]
